@@ -4,7 +4,11 @@
   of bcrypt and stays a `def … : Prop` (C17_full).
 -/
 import XC.Model.C17
+import XC.Proofs.C17
+import XC.Proofs.C17_Key
+import XC.Proofs.C17_B64
 namespace XC.C17
+open XC.C12
 
 theorem idx_ok (s : Bytes) (i : Nat) (h : i < s.length) : idx s i = .ok s[i] := by
   simp [idx, h]
@@ -155,5 +159,173 @@ theorem cost_roundtrip (c : Int) (h1 : 4 ≤ c) (h2 : c ≤ 31) :
       (4 ≤ n.val → atoi2 ((fmt02 (n.val : Int)).getD 0 0) ((fmt02 (n.val : Int)).getD 1 0) = some (n.val : Int)) := by
     decide
   exact ⟨(key n).1, (key n).2 (by omega)⟩
+
+/-! ## Hash() ↔ newFromHash, Compare ∘ Generate -/
+
+theorem slice_ok (s : Bytes) (a b : Nat) (h : a ≤ b ∧ b ≤ s.length) : slice s a b = .ok ((s.take b).drop a) := by
+  simp [slice, h]
+
+theorem sliceFrom_ok (s : Bytes) (a : Nat) (h : a ≤ s.length) : sliceFrom s a = .ok (s.drop a) := by
+  simp [sliceFrom, h]
+
+theorem idx_ok' (s : Bytes) (i : Nat) (h : i < s.length) : idx s i = .ok s[i] := by
+  simp [idx, h]
+
+/-- `Hash()` of a well-formed value (22-byte salt, 31-byte hash, legal cost, version "2a") parses back -/
+theorem newFromHash_hashString (h salt : Bytes) (cost : Int) (hs : salt.length = 22) (hh : h.length = 31)
+    (h1 : 4 ≤ cost) (h2 : cost ≤ 31) :
+    newFromHash (hashString ⟨h, salt, cost, 50, 97⟩) = .ok ⟨h, salt, cost, 50, 97⟩ := by
+  have hf := fmt02_length cost h1 h2
+  obtain ⟨f0, f1, hfe⟩ : ∃ f0 f1, fmt02 cost = [f0, f1] := by
+    match hm : fmt02 cost, hf with
+    | [a, b], _ => exact ⟨a, b, rfl⟩
+  have hat := atoi2_fmt02 cost h1 h2
+  simp only [hfe, List.getElem_cons_zero, List.getElem_cons_succ] at hat
+  have hstr : hashString ⟨h, salt, cost, 50, 97⟩ = [36, 50, 97, 36, f0, f1, 36] ++ (salt ++ h) := by
+    unfold hashString
+    simp only [pad_self 22 salt hs, pad_self 31 h hh, hfe, pad_self 2 [f0, f1] rfl]
+    simp
+  rw [hstr]
+  unfold newFromHash
+  have hlen : ([36, 50, 97, 36, f0, f1, 36] ++ (salt ++ h)).length = 60 := by simp [hs, hh]
+  simp only [hlen, show ¬ (60 < 59) by decide, if_false]
+  unfold decodeVersion
+  simp only [bind, idx, List.cons_append, List.getElem?_cons_zero, List.getElem?_cons_succ]
+  simp only [show ((36 : UInt8) != 36) = false by decide, show ¬ ((50 : UInt8) > 50) by decide,
+    show ((97 : UInt8) != 36) = true by decide, if_true, if_false, pure, Bool.false_eq_true]
+  rw [sliceFrom_ok _ 4 (by simp)]
+  simp only [List.drop_succ_cons, List.drop_zero, List.nil_append]
+  unfold decodeCost
+  rw [slice_ok _ 0 2 (by simp)]
+  simp only [bind, List.take_succ_cons, List.take_zero, List.drop_zero, idx, List.getElem?_cons_zero,
+    List.getElem?_cons_succ, hat, checkCost]
+  have hc : ¬ (cost < 4 ∨ cost > 31) := by omega
+  simp only [hc, if_false, pure]
+  rw [sliceFrom_ok _ 3 (by simp)]
+  simp only [List.drop_succ_cons, List.drop_zero]
+  rw [slice_ok _ 0 22 (by simp [hs]), sliceFrom_ok _ 22 (by simp [hs])]
+  simp only [List.drop_zero]
+  rw [List.take_append_of_le_length (by omega), List.take_of_length_le (by omega)]
+  rw [List.drop_append_of_le_length (by omega), List.drop_of_length_le (by omega)]
+  simp
+
+/-- Compare(Generate(pw)) succeeds: for every password Generate accepts (≤ 72 bytes), every cost and
+    every 16 salt bytes -/
+theorem compare_generate (pw rnd : Bytes) (cost : Int) (H : Bytes) (hr : rnd.length = 16)
+    (hg : generate pw cost rnd = .ok H) : compare H pw = .ok () := by
+  unfold generate at hg
+  split at hg
+  · cases hg
+  · simp only [bind, checkCost] at hg
+    generalize hc' : (if cost < 4 then (10 : Int) else cost) = c at hg
+    by_cases hc : c < 4 ∨ c > 31
+    · simp [hc] at hg
+    · simp only [hc, if_false] at hg
+      cases hb : bcrypt pw c.toNat (b64Encode rnd) with
+      | panic => simp [hb] at hg
+      | err e => simp [hb] at hg
+      | ok h =>
+        simp only [hb, pure] at hg
+        injection hg with hg
+        subst hg
+        have hl := bcrypt_length _ _ _ _ hb
+        have hs := b64Encode_length16 rnd hr
+        unfold compare
+        rw [newFromHash_hashString h _ c hs hl (by omega) (by omega)]
+        simp only [bind, hb, pure]
+        simp
+
+
+example : generate (zeros 73) 4 (zeros 16) = .err .tooLong := by rfl
+example : generate [] 33 (zeros 16) = .err .costRange := by rfl
+
+/-! ## the 72-byte key equivalence ("if" direction of the password iff) -/
+
+/-- the 72 bytes the key schedule reads: the key repeated cyclically -/
+def cyc72 (key : Bytes) : Bytes := (List.range 72).map (fun p => cyc key.toArray p)
+
+theorem cyc72_pointwise (k1 k2 : Bytes) (h : cyc72 k1 = cyc72 k2) :
+    ∀ p, p < 72 → cyc k1.toArray p = cyc k2.toArray p := by
+  intro p hp
+  unfold cyc72 at h
+  exact (List.map_inj_left.mp h) p (List.mem_range.mpr hp)
+
+/-- two passwords whose NUL-terminated forms have the same 72-byte cyclic expansion give the same
+    Blowfish state after `expensiveBlowfishSetup` (any cost, any decoded salt) … -/
+theorem key_equiv_setup (pw1 pw2 csalt : Bytes) (cost : Nat) (hs : csalt ≠ [])
+    (h : cyc72 (pw1 ++ [0]) = cyc72 (pw2 ++ [0])) :
+    setupCore (pw1 ++ [0]) csalt cost = setupCore (pw2 ++ [0]) csalt cost := by
+  have hp := cyc72_pointwise _ _ h
+  have n1 : 0 < (pw1 ++ [0]).toArray.size := by simp
+  have n2 : 0 < (pw2 ++ [0]).toArray.size := by simp
+  have hx : ∀ c, Blowfish.xorKey (pw1 ++ [0]).toArray c = Blowfish.xorKey (pw2 ++ [0]).toArray c :=
+    Blowfish.xorKey_congr _ _ n1 n2 hp
+  have hsl : (csalt.length == 0) = false := by
+    cases csalt with
+    | nil => exact absurd rfl hs
+    | cons a b => simp
+  have l1 : ¬ (pw1 ++ [0]).length < 1 := by simp
+  have l2 : ¬ (pw2 ++ [0]).length < 1 := by simp
+  unfold setupCore Blowfish.newSaltedCipher
+  simp only [hsl, l1, l2, if_false, Bool.false_eq_true]
+  have he : (fun c => Blowfish.expandKey csalt.toArray (Blowfish.expandKey (pw1 ++ [0]).toArray c)) =
+      (fun c => Blowfish.expandKey csalt.toArray (Blowfish.expandKey (pw2 ++ [0]).toArray c)) := by
+    funext c; simp only [Blowfish.expandKey, hx]
+  simp only [Blowfish.expandKeyWithSalt, hx, he]
+
+/-- … hence the same bcrypt hash: `bcrypt pw₁ = bcrypt pw₂` whenever cyc72 (pw₁‖0) = cyc72 (pw₂‖0)
+    (covers truncation at 72 bytes and the aliases pw vs pw‖0‖pw) -/
+theorem key_equiv_if (pw1 pw2 salt : Bytes) (cost : Nat)
+    (h : cyc72 (pw1 ++ [0]) = cyc72 (pw2 ++ [0])) :
+    bcrypt pw1 cost salt = bcrypt pw2 cost salt := by
+  unfold bcrypt setup
+  cases hd : base64Decode salt with
+  | none => rfl
+  | some cs => simp only [key_equiv_setup pw1 pw2 cs cost (base64Decode_ne_nil salt cs hd) h]
+
+/-- `expensiveBlowfishSetup` cannot panic (its only candidate, `ExpandKey` on an empty decoded salt,
+    is unreachable), hence Compare never panics: with `parse_total`, every path returns a value or an error -/
+theorem compare_total (hashed pw : Bytes) : compare hashed pw ≠ .panic := by
+  unfold compare
+  apply bind_noPanic _ _ (parse_total hashed)
+  intro p _
+  apply bind_noPanic
+  · unfold bcrypt
+    apply bind_noPanic
+    · unfold setup
+      cases hd : base64Decode p.salt with
+      | none => simp
+      | some cs =>
+        have hne := base64Decode_ne_nil _ _ hd
+        simp only
+        unfold setupCore
+        split
+        · simp
+        · have : cs.isEmpty = false := by cases cs with | nil => exact absurd rfl hne | cons a b => rfl
+          simp [this]
+    · intro a _; simp [pure]
+  · intro a _
+    split <;> simp [pure]
+
+/-- non-vacuity: "ab" and "ab\0ab" are the same bcrypt key; so are two 80-byte passwords that agree
+    on their first 72 bytes -/
+example : cyc72 ([97, 98] ++ [0]) = cyc72 ([97, 98, 0, 97, 98] ++ [0]) := by decide
+example : cyc72 ((List.replicate 72 7 ++ [1, 2, 3]) ++ [0]) = cyc72 ((List.replicate 72 7 ++ [9]) ++ [0]) := by decide
+
+/-! ## base64 round trip (16-byte salts, 23-byte hashes) -/
+
+/-- `base64Decode(base64Encode(salt)) = salt` for the 16 salt bytes: the salt Generate embeds is the
+    salt Compare uses -/
+theorem b64_roundtrip_salt (bs : Bytes) (h : bs.length = 16) : base64Decode (b64Encode bs) = some bs :=
+  b64_roundtrip_16 bs h
+
+theorem b64_roundtrip_hash (bs : Bytes) (h : bs.length = 23) : base64Decode (b64Encode bs) = some bs :=
+  b64_roundtrip_23 bs h
+
+/-- the full statement of the property (the "only if" direction is collision resistance of bcrypt and
+    is not provable): Compare succeeds for a candidate iff the key schedule sees the same 72 bytes -/
+def C17_full : Prop :=
+  ∀ (pw cand rnd : Bytes) (cost : Int) (H : Bytes), rnd.length = 16 → generate pw cost rnd = .ok H →
+    (compare H cand = .ok () ↔ cyc72 (pw ++ [0]) = cyc72 (cand ++ [0]))
 
 end XC.C17
